@@ -10,5 +10,5 @@ CONSTANTS
   TabStops = {TRUE, FALSE}
   TabSize = 4
   Emit = FALSE
-INVARIANTS Good StableWithoutThresh
+INVARIANTS Stable
 CHECK_DEADLOCK FALSE
